@@ -3,6 +3,7 @@ package sim
 import (
 	"fmt"
 	"sort"
+	"strings"
 	"time"
 
 	"github.com/paulsonkoly/chess-3/board"
@@ -40,13 +41,18 @@ type SearchStep struct {
 	TwinSched     []Sched `json:"twin_sched,omitempty"`      // one per twin (interleaved among themselves)
 	SoftToHard    bool    `json:"soft_to_hard,omitempty"`    // twins get WithNodes(N of the primary) instead of the soft limit
 	TwinDebugFlip bool    `json:"twin_debug_flip,omitempty"` // twins run with the Debug option inverted
-	Sweep         *Sweep  `json:"sweep,omitempty"`
-	Clear         bool    `json:"clear,omitempty"`       // Clear() before this search (all persistent engines)
-	ClearFirst    bool    `json:"clear_first,omitempty"` // Clear() before the ResizeTT of this step instead of after it
-	Resize        int     `json:"resize,omitempty"`      // ResizeTT(bytes) before this search
-	Play          string  `json:"play"`                  // move to play afterwards: "best", "" (none; search the same root again) or UCI text
-	NewRoot       *Root   `json:"new_root,omitempty"`    // before this step: leave the current game and set up this root (the engines keep their state)
-	Research      bool    `json:"research,omitempty"`    // search the same root once more with a small budget afterwards (engine reusable)
+	// TwinOptOrder: twins hand their options to Go in another order;
+	// TwinOutputFlip: twins run without an output writer where the primary has
+	// one and vice versa (results, node counts and state are compared, not lines).
+	TwinOptOrder   int    `json:"twin_opt_order,omitempty"`
+	TwinOutputFlip bool   `json:"twin_output_flip,omitempty"`
+	Sweep          *Sweep `json:"sweep,omitempty"`
+	Clear          bool   `json:"clear,omitempty"`       // Clear() before this search (all persistent engines)
+	ClearFirst     bool   `json:"clear_first,omitempty"` // Clear() before the ResizeTT of this step instead of after it
+	Resize         int    `json:"resize,omitempty"`      // ResizeTT(bytes) before this search
+	Play           string `json:"play"`                  // move to play afterwards: "best", "" (none; search the same root again) or UCI text
+	NewRoot        *Root  `json:"new_root,omitempty"`    // before this step: leave the current game and set up this root (the engines keep their state)
+	Research       bool   `json:"research,omitempty"`    // search the same root once more with a small budget afterwards (engine reusable)
 }
 
 // Sweep runs the same request from the same engine state (clones) at many
@@ -246,6 +252,14 @@ func (r *searchRun) run() {
 			if st.TwinDebugFlip {
 				treq.Debug = !req.Debug // Debug only adds statistics: it is not a limit
 			}
+			if st.TwinOptOrder != 0 {
+				treq.OptOrder = st.TwinOptOrder
+				r.stat("twins_with_other_option_order", 1)
+			}
+			if st.TwinOutputFlip {
+				treq.Output = !req.Output
+				r.stat("twins_with_output_flipped", 1)
+			}
 			ignoreAbortLine := false
 			if st.SoftToHard && (req.SoftNodes > 0 || req.SoftTime > 0) && !res.Aborted {
 				treq.SoftNodes, treq.SoftTime = 0, 0
@@ -263,6 +277,16 @@ func (r *searchRun) run() {
 					for i := range vs {
 						vs[i].Kind = "soft-hard-" + vs[i].Kind[len("twin-"):]
 					}
+				}
+				if st.TwinOutputFlip {
+					// one of the two wrote no lines at all
+					kept := vs[:0]
+					for _, v := range vs {
+						if !strings.HasSuffix(v.Kind, "-lines") {
+							kept = append(kept, v)
+						}
+					}
+					vs = kept
 				}
 				r.out.Violations = append(r.out.Violations, vs...)
 				if tres[ti].Panic != "" {
